@@ -137,11 +137,14 @@ def corruptions(conn, lay, rng):
 # ---------------------------------------------------------------------------------------------- the sweep
 def recipes_for(ctx):
     lib = G.LIB_QUICK if ctx.quick else G.LIB_THOROUGH
-    n_rand = 34 if ctx.quick else 1100
-    rs = [('lib', n, list(p)) for n, p in lib] + [('selfloop', list(v)) for v in G.SELFLOOPS]
+    n_rand, n_top = (45, 12) if ctx.quick else (2500, 400)
+    rs = [('lib', n, list(p)) for n, p in lib] + [('selfloop', list(v)) for v in G.SELFLOOPS] + [('loop', list(v)) for v in G.LOOPS]
     for i in range(n_rand):
         seed = ctx.seed * 100003 + i
         rs.append(('rand', seed, G.rand_params(random.Random(seed), i)))
+    for i in range(n_top):                     # a whole port-less HWSystem drawn as a block
+        seed = ctx.seed * 100003 + 50000 + i
+        rs.append(('top', seed, G.top_params(random.Random(seed), i)))
     return rs
 
 
